@@ -6,6 +6,7 @@
 #define IN(Ty, n) auto n = c.template in<Ty<T>> (#n)
 
 #define NORMS(Ty, id, L)                                                                                              \
+    EXTRACT ("C08", id##_dot, "C08." L ".dot", { IN (Ty, a); IN (Ty, b); c.outS (a.dot (b)); })                         \
     EXTRACT ("C08", id##_length2, "C08." L ".length2", { IN (Ty, a); c.outS (a.length2 ()); })                          \
     EXTRACT ("C08", id##_normalize, "C08." L ".normalize", { IN (Ty, a); a.normalize (); c.out (a); })                  \
     EXTRACT ("C08", id##_normalizeExc, "C08." L ".normalizeExc", { IN (Ty, a); a.normalizeExc (); c.out (a); })         \
